@@ -48,6 +48,12 @@ CHECKS = {
  "C18": ("exploration", "deterministic simulation with fault injection: authorizer snapshot written to a simulated disk (clean, torn, short, bit-flipped, lost, unsynced), verifier crash and restart, reload; restored-vs-original twin agreement on the clean disk, no-panic / still-usable on the faulty disk",
          "Seeded exploration; clean and faulty disk configurations are run separately so that the relaxation (no equivalence demanded after a disk fault) cannot hide an ordinary bug. Sampling.",
          "trusted: none for the twin half (model-free); a corrupted snapshot that still decodes is a different valid policy, so only no-panic is demanded there", "DESIGN.md §3 C18"),
+ "C10": ("exploration", "deterministic simulation with fault injection: a Byzantine issuer (own wire writer, valid signatures, adversarial field values) and byte-level corruption in transit; every delivered byte string is exercised by holder and verifier operations; node crash = death of the worker OS process",
+         "Seeded exploration; oracle = no recovered panic on the calling goroutine and no death of the worker process, which is the only way a panic on a library-owned goroutine can be observed. Harness crashes are told apart (no library frame on the dying goroutine) and reported as exit 2, never as a violation. Sampling.",
+         "trusted: the worker-death attribution rule (first frame of the dying goroutine inside biscuit-go/v2)", "DESIGN.md §3 C10"),
+ "C19": ("exploration", "deterministic simulation of caller threads: seeded operation-level interleavings of 2-4 tasks on one shared token under the Go race detector, with a turn gate the detector cannot see (//go:norace), plus solo-run result equality",
+         "Seeded exploration of interleavings; a data race is reported by the race detector whatever the distance in time between the two accesses because the scheduler contributes no happens-before edge; results of every operation must equal those of the same script run alone. Sampling; shadow-memory eviction can hide a pair, never invent one.",
+         "trusted: Go race detector; the library has no lock/atomic whose critical section could be split, so operation granularity loses nothing for race detection", "DESIGN.md §3 C19"),
  "C20": ("fault_enumeration", "deterministic simulation with fault injection: simulated entropy source failing at every byte position; exhaustive enumeration of the failure point",
          "Fault enumeration: every drawing operation x failure kind x EVERY k in [0,32] x 4 chunkings (1188 cases, exhaustive in k) on every run of the check, plus seeded random cases in longer histories: an operation whose draw failed returns an error and no token, does not panic, leaves its parent untouched and can be retried; a returned token's next secret equals the bytes actually delivered, its announced key is that seed's public key, and it verifies.",
          "trusted: bsim/ref envelope decoder, crypto/ed25519", "DESIGN.md §3 C20"),
